@@ -444,7 +444,7 @@ fn mt_run_one(cfg: &Value, out: &mut impl Write) -> usize {
     let timeout_bias = rng.below(3); // 0: timeouts rare, 2: timeouts eager
     let mut last: Option<usize> = None;
     let mut steps = 1;
-    let budget = 200_000;
+    let budget = 20_000; // fair runs need a few thousand grants at most
     // set when the run did not come to its natural end (deadlock / budget): the
     // remaining threads are parked for good and must not be joined
     let mut stuck = false;
